@@ -163,5 +163,6 @@ def faulted_input(draw, L, stream=True):
     if "cut" in labels and len(data) > 1:
         data = data[: draw(st.integers(1, len(data) - 1))]
     if "suffix" in labels:
-        data = data + draw(st.binary(min_size=1, max_size=6))
+        # surplus bytes: random, or low-entropy (a trailer of zeros is what an mssim socket appends)
+        data = data + draw(st.one_of(st.binary(min_size=1, max_size=6), st.lists(st.sampled_from(list(LOW)), min_size=1, max_size=6).map(bytes), st.sampled_from([b"\x00", b"\x00\x00\x00\x00", b"\x00\x00\x00\x01"])))
     return case.type, case.cc, case.enc, data, labels
